@@ -528,7 +528,11 @@ def finish(prop, tier, seed, t0, design, switches, recs, vruns, rejects, tstates
         rec = by_seed.get(seed_v, {})
         rp = rec.get("replay", "")
         dst = f"{vdir}/{prop}_{v['check']}_{seed_v}.json"
-        if vr.get("tag") and ":" in vr["tag"]:
+        if vr.get("tag") and "@" in vr["tag"]:
+            # forced schedule: the replay is (seed, scenario name)
+            dst = f"{vdir}/{prop}_{v['check']}_{seed_v}_{abs(hash(vr['tag'])) % 100000}.json"
+            json.dump({"driver": "sched", "seed": seed_v, "scenario": vr["tag"]}, open(dst, "w"))
+        elif vr.get("tag") and re.match(r"^\d+:(true|false)$", vr["tag"]):
             # fault run: the replay is (workload seed, position, mode)
             idx, sticky = vr["tag"].split(":")
             wl = [r for r in recs if r.get("wseed") == seed_v]
